@@ -537,12 +537,15 @@ pub fn check(a: CheckArgs) -> i32 {
         cmd.stdin(Stdio::null()).stdout(Stdio::piped()).stderr(Stdio::null());
         let mut child = cmd.spawn().expect("spawn worker");
         let so = child.stdout.take().unwrap();
+        let pid = child.id();
         std::thread::spawn(move || {
             let rd = BufReader::new(so);
             for line in rd.lines().map_while(Result::ok) {
                 let _ = tx.send((j, line));
             }
             let st = child.wait();
+            // a child that died or was stopped leaves its sandbox behind
+            crate::common::remove_sandbox_of(pid);
             let _ = tx.send((j, format!("X {}", st.map(|s| format!("{s}")).unwrap_or_else(|e| e.to_string()))));
         })
     };
